@@ -231,6 +231,14 @@ func (e *Env) eval(ex ast.Expr) (SymVal, error) {
 				}
 			}
 		}
+		// ghost field of an embedded struct: needs the struct's address
+		if ref, t, ok := e.evalAddr(ex.X); ok {
+			if gf := c.g.ghostFields[fullTypeKey(t)]; gf != nil {
+				if _, ok := gf[ex.Sel.Name]; ok {
+					return e.selectField(mkRef(ref, types.NewPointer(t)), ex.Sel.Name)
+				}
+			}
+		}
 		x, err := e.eval(ex.X)
 		if err != nil {
 			return SymVal{}, err
@@ -412,6 +420,56 @@ func (e *Env) pkgConst(pkg, name string) (SymVal, bool) {
 		}
 	}
 	return SymVal{}, false
+}
+
+// evalAddr: the address (and struct type) denoted by p or p.f1.f2 where p is a pointer and
+// the fi are embedded struct fields.
+func (e *Env) evalAddr(ex ast.Expr) (string, types.Type, bool) {
+	switch ex := ex.(type) {
+	case *ast.ParenExpr:
+		return e.evalAddr(ex.X)
+	case *ast.Ident:
+		v, ok := e.lookup(ex.Name)
+		if !ok || v.K != KRef || v.T == nil {
+			return "", nil, false
+		}
+		pt, ok := v.T.Underlying().(*types.Pointer)
+		if !ok {
+			return "", nil, false
+		}
+		return v.S, pt.Elem(), true
+	case *ast.SelectorExpr:
+		r, t, ok := e.evalAddr(ex.X)
+		if !ok {
+			// a pointer-valued field: p.q where q is *T
+			v, err := e.eval(ex)
+			if err != nil || v.K != KRef || v.T == nil {
+				return "", nil, false
+			}
+			if pt, ok := v.T.Underlying().(*types.Pointer); ok {
+				return v.S, pt.Elem(), true
+			}
+			return "", nil, false
+		}
+		st, ok := t.Underlying().(*types.Struct)
+		if !ok {
+			return "", nil, false
+		}
+		for i := 0; i < st.NumFields(); i++ {
+			if st.Field(i).Name() == ex.Sel.Name {
+				ft := st.Field(i).Type()
+				if kindOf(ft) == KStruct {
+					return app("fld", r, fmt.Sprint(i)), ft, true
+				}
+				if pt, ok := ft.Underlying().(*types.Pointer); ok {
+					locs := e.c.fieldLocs(r, typeKey(t), st, i)
+					v := e.c.loadLocs(e.st, locs, ft)
+					return v.S, pt.Elem(), true
+				}
+			}
+		}
+	}
+	return "", nil, false
 }
 
 func (e *Env) deref(x SymVal) (SymVal, error) {
